@@ -292,8 +292,24 @@ fn dcs() -> BoxedStrategy<Tok> {
         v
     });
     let font = (
-        0u32..=44,
+        // slot 0 is the font every size computation uses: weight it
+        prop_oneof![2 => Just(0u32), 3 => 0u32..=44],
         prop_oneof![
+            // PSF1 with the interesting glyph heights (0 = degenerate) and modes
+            (prop::sample::select(vec![0u8, 1, 8, 16, 32, 255]), 0u8..=3, vec(any::<u8>(), 0..=40)).prop_map(|(cs, mode, mut d)| {
+                let mut v = vec![0x36, 0x04, mode, cs];
+                v.append(&mut d);
+                b64(&v)
+            }),
+            // well-formed PSF2 header with small / degenerate geometry
+            (0u32..=3, 0u32..=3, 0u32..=9, 0u32..=9).prop_map(|(len, cs, hh, ww)| {
+                let mut v = vec![0x72, 0xb5, 0x4a, 0x86];
+                for f in [0u32, 32, 0, len, cs, hh, ww] {
+                    v.extend_from_slice(&f.to_le_bytes());
+                }
+                v.extend(std::iter::repeat(0x55).take((len * cs) as usize));
+                b64(&v)
+            }),
             // raw font of a legal height
             (1usize..=32).prop_flat_map(|hh| vec(any::<u8>(), hh * 256)).prop_map(|d| b64(&d)),
             // psf2 / psf1 magic + short data
@@ -315,7 +331,17 @@ fn dcs() -> BoxedStrategy<Tok> {
         vec![Piece::Lit(v)]
     });
     let random = vec(any::<u8>(), 0..=12).prop_map(|v| vec![Piece::Lit(v)]);
-    (prop_oneof![4 => macro_def, 4 => sixel, 2 => font, 1 => invoke_inside, 1 => random], prop_oneof![8 => Just(true), 1 => Just(false)])
+    // a (possibly degenerate) font for slot 0 immediately followed by a small sixel: image placement computes with the size of font 0
+    let font0_then_sixel = (prop::sample::select(vec![0u8, 1, 2, 8, 16, 32]), 0u8..=1, sixel_payload()).prop_map(|(cs, mode, six)| {
+        let mut f = vec![0x36, 0x04, mode, cs];
+        f.extend(std::iter::repeat(0xA5).take(cs as usize * 3));
+        let mut v = b"CTerm:Font:0:".to_vec();
+        v.extend(b64(&f));
+        v.extend(b"\x1b\\\x1bPq");
+        v.extend(six);
+        vec![Piece::Lit(v)]
+    });
+    (prop_oneof![8 => macro_def, 8 => sixel, 4 => font, 2 => invoke_inside, 2 => random, 1 => font0_then_sixel], prop_oneof![8 => Just(true), 1 => Just(false)])
         .prop_map(|(payload, terminated)| {
             let mut v = vec![lit(b"\x1bP")];
             v.extend(payload);
@@ -328,9 +354,11 @@ fn dcs() -> BoxedStrategy<Tok> {
 }
 
 fn osc() -> BoxedStrategy<Tok> {
-    let pal = vec((0u32..=300, any::<u8>(), any::<u8>(), any::<u8>()), 1..=3).prop_map(|cs| {
+    // colour index: usually present, sometimes empty (the grammar allows the number to be missing)
+    let pal = vec((prop_oneof![5 => (0u32..=300).prop_map(Some), 1 => Just(None)], any::<u8>(), any::<u8>(), any::<u8>()), 1..=3).prop_map(|cs| {
         let mut s = String::from("4");
         for (i, r, g, b) in cs {
+            let i = i.map(|v| v.to_string()).unwrap_or_default();
             s.push_str(&format!(";{i};rgb:{r:02x}/{g:02x}/{b:02X}"));
         }
         s.into_bytes()
